@@ -225,6 +225,18 @@ class SendRun(Scenario):
                 self.fail("reassembly", "a conforming receiver reassembled %d octets, %d were submitted" % (
                     len(b"".join(self.rx_buf)), len(P)))
             if role == "c":     # finish the transaction
+                if self.history and self.ch.flip(400):
+                    # the final segment ack arrives once more (duplicate / late) while the client waits for
+                    # the confirmation: it must be ignored — in particular it must not shorten the deadline
+                    last = {k: v for k, v in self.history[-1].items() if not k.startswith("_")}
+                    before = self.digest("cl", self.inv)
+                    r = L.frame(0, last)
+                    after = self.digest("cl", self.inv)
+                    if before is not None and (after is None or after[2] != 2 or r["out"] or
+                                               (after[15] or 0) < (before[15] or 0)):
+                        self.fail("late-final-ack", "a repeated final segment ack in AWAIT_CONFIRMATION changed the "
+                                  "transaction: deadline %r -> %r, outputs %r" % (
+                                      before[15], after and after[15], [o["o"] for o in r["out"]]))
                 L.frame(0, {"t": 2, "id": self.inv, "svc": 200})
         elif d is not None and steps >= limit:
             self.fail("nontermination", "sender still busy after %d adversary moves" % steps)
